@@ -1,6 +1,8 @@
+import re
+
 from prophyc import model
 from prophyc.model import DISC_SIZE, BUILTIN_SIZES
-from prophyc.generators.base import GenerateError, GeneratorBase, TranslatorBase
+from prophyc.generators.base import GenerateError, GeneratorBase, TranslatorBase, check_cpp_names
 
 BUILTIN2C = {
     'i8': 'int8_t',
@@ -61,6 +63,12 @@ def _get_byte_size(node):
 def _get_cpp_builtin_type(node):
     """Gets C++ float or int type from stdint.h, or throws miserably."""
     return BUILTIN2C[_get_leaf(node).type_name]
+
+
+def _template_arg(size):
+    """ An expression (isar, patch) goes in parentheses: `array<T, 16>>1>` would end the argument list at the first `>`. """
+    size = str(size)
+    return size if re.match(r"\w+\Z", size) else "(%s)" % size
 
 
 def _to_literal(value):
@@ -478,7 +486,7 @@ def generate_struct_fields(node):
     text = ''
     for m in node.members:
         if m.is_fixed:
-            text += 'array<{0}, {1}> {2};\n'.format(BUILTIN2C.get(m.type_name, m.type_name), m.size, m.name)
+            text += 'array<{0}, {1}> {2};\n'.format(BUILTIN2C.get(m.type_name, m.type_name), _template_arg(m.size), m.name)
         elif m.is_dynamic:
             text += 'std::vector<{0}> {1};\n'.format(BUILTIN2C.get(m.type_name, m.type_name), m.name)
         elif m.is_limited:
@@ -510,7 +518,7 @@ def generate_struct_constructor(node):
         init = _get_initializer(m)
         if m.is_fixed:
             add_to_default(default_ctor, m, '')
-            add_to_full(full_ctor, True, m, 'array<{0}, %s>' % m.size)
+            add_to_full(full_ctor, True, m, 'array<{0}, %s>' % _template_arg(m.size))
         elif m.is_dynamic:
             add_to_full(full_ctor, True, m, 'std::vector<{0}>')
         elif m.is_limited:
@@ -627,6 +635,7 @@ class CppFullGenerator(GeneratorBase):
     }
 
     def check_nodes(self, nodes):
+        check_cpp_names(nodes)
         for n in nodes:
             if isinstance(n, (model.Struct, model.Union)) and n.byte_size is None:
                 raise GenerateError('{0} byte size unknown'.format(n.name))
